@@ -74,10 +74,11 @@ def run(ctx, R, tier):
 
     # ---------------------------------------------------------------- R6 (termination of the peer-controlled annotation walk)
     from ..report import Rules
+    from ..report import run_shared as _run_shared
     from . import c06
     R6 = Rules("C06")
     try:
-        c06.run(ctx, R6, tier)
+        _run_shared(ctx, c06, R6, tier)
     except AnalysisError as _shared_x:
         # the other property's own anchors are gone on this tree: its check reports that; what it produced before is still shared
         R.note("obligations shared from C06 are incomplete on this tree: %s" % _shared_x)
@@ -90,13 +91,36 @@ def run(ctx, R, tier):
     from . import c17 as _c17
     R17_ = Rules("C17")
     try:
-        _c17.run(ctx, R17_, tier)
+        _run_shared(ctx, _c17, R17_, tier)
     except AnalysisError as _shared_x:
         # the other property's own anchors are gone on this tree: its check reports that; what it produced before is still shared
         R.note("obligations shared from C17 are incomplete on this tree: %s" % _shared_x)
     for o in R17_.obs:
         if o.rule == "C17-R2" and o.key.split("|")[1] == "receive_data" and o.key.endswith(":TimeoutError"):
             R.add("C05-R1b", "receive_data|" + o.key.split("|", 2)[2], o.desc + " (a stalled peer is dropped after COMMTIMEOUT instead of holding a worker or the event loop)", o.ok, o.loc, o.detail)
+    # a refused peer costs the daemon nothing after the refusal: nothing reads from it or waits for it between the answer and the close (shared with C08-R2) - on the
+    # multiplex server and on the thread pool's accept thread a blocking read there stops the daemon for everybody
+    from . import c08 as _c08
+    R08_ = Rules("C08")
+    try:
+        _run_shared(ctx, _c08, R08_, tier)
+    except AnalysisError as _shared_x:
+        R.note("obligations shared from C08 are incomplete on this tree: %s" % _shared_x)
+    for o in R08_.obs:
+        if o.key in ("C08-R2|handleConnection|refusal-closes-without-waiting", "C08-R2|_handshake|returns-once-the-answer-is-sent"):
+            R.add("C05-R1b", o.key.split("|", 1)[1], o.desc + " (a refused client cannot hold a worker, the accept thread or the multiplex loop)", o.ok, o.loc, o.detail)
+    # the pool's capacity is what its two sets say: a worker that ends is in neither, so capacity cannot leak whichever way connections end (shared with C18-R3/R4).
+    # A separate counter that one retirement path forgets leaves a pool that refuses clients although its workers are idle - the daemon no longer accepts connections
+    from . import c18 as _c18
+    R18_ = Rules("C18")
+    try:
+        _run_shared(ctx, _c18, R18_, tier)
+    except AnalysisError as _shared_x:
+        R.note("obligations shared from C18 are incomplete on this tree: %s" % _shared_x)
+    for o in R18_.obs:
+        if o.key in ("C18-R3|Pool.num_workers|counts-both-sets", "C18-R3|Pool.process|new-worker-under-bound", "C18-R4|Pool.notify_done|leaves-busy",
+                     "C18-R4|Pool.notify_done|idle-or-retired", "C18-R3|Pool.process|new-worker-counted-only-once-started"):
+            R.add("C05-R1b", o.key.split("|", 1)[1], o.desc + " (no sequence of connections, however they end, uses up the pool's capacity)", o.ok, o.loc, o.detail)
     ap = ctx.fn("Pyro5.protocol.ReceivingMessage.add_payload")
     apcfg = ctx.cfg(ap)
     aprd = ctx.rd(ap)
